@@ -95,7 +95,7 @@ EMPTY = Val()
 
 class Obj:
     __slots__ = ("oid", "cls", "region", "fields", "elem", "keys", "copy_of", "shallow", "site", "stamp", "epoch",
-                 "owner", "label", "dictkeys", "mustkeys")
+                 "owner", "label", "dictkeys", "mustkeys", "notin")
 
     def __init__(self, oid, cls, region, site=None, stamp=(), epoch=0, label=None):
         self.oid = oid
@@ -113,6 +113,7 @@ class Obj:
         self.label = label
         self.dictkeys = None        # for dict displays with constant keys: {const: Val}
         self.mustkeys = {}          # constant keys that are definitely present (assigned on every path): key -> Val
+        self.notin = frozenset()    # lists of distinct values: values (named by their parameter) just removed
 
     def clone_shell(self):
         o = Obj(self.oid, self.cls, self.region, self.site, self.stamp, self.epoch, self.label)
@@ -124,6 +125,7 @@ class Obj:
         o.owner = self.owner
         o.dictkeys = dict(self.dictkeys) if self.dictkeys is not None else None
         o.mustkeys = dict(self.mustkeys)
+        o.notin = self.notin
         return o
 
     def __repr__(self):
@@ -177,6 +179,7 @@ class Heap:
             o1.elem = join(o1.elem, o2.elem)
             o1.keys = join(o1.keys, o2.keys)
             o1.mustkeys = {k: join(v, o2.mustkeys[k]) for k, v in o1.mustkeys.items() if k in o2.mustkeys}
+            o1.notin = o1.notin & o2.notin
             if o1.dictkeys is not None and o2.dictkeys is not None:
                 o1.dictkeys = {k: join(o1.dictkeys.get(k), o2.dictkeys.get(k))
                                for k in set(o1.dictkeys) | set(o2.dictkeys)}
